@@ -298,14 +298,6 @@ class Parser(RstParser):
             document.append(error)
             config = MdParserConfig()
 
-        if "attrs_image" in config.enable_extensions:
-            create_warning(
-                document,
-                "The `attrs_image` extension is deprecated, "
-                "please use `attrs_inline` instead.",
-                MystWarnings.DEPRECATED,
-            )
-
         # update the global config with the file-level config
         try:
             topmatter = read_topmatter(inputstring)
@@ -317,6 +309,15 @@ class Parser(RstParser):
                     document, msg, wtype, line=1, append_to=document
                 )
                 config = merge_file_level(config, topmatter, warning)
+
+        # checked after the merge, as the front matter can also enable the extension
+        if "attrs_image" in config.enable_extensions:
+            create_warning(
+                document,
+                "The `attrs_image` extension is deprecated, "
+                "please use `attrs_inline` instead.",
+                MystWarnings.DEPRECATED,
+            )
 
         # parse content
         parser = create_md_parser(config, DocutilsRenderer)
